@@ -493,3 +493,8 @@ def redelivery_timing(kind: int, di: int, k: int, c0: int, c1: int) -> str:
     """
     kind = stubs.cint(kind, 0, 1); k = stubs.cint(k, 0, 5)
     return _redelivery(kind, stubs.pick([0.0, 1.0, 4.0, 7.0], di), k, [c0, c1, 0, 0, 0, 0])
+
+
+# the execution time-out against states that have Catchers / Retriers (whole runs on the virtual clock)
+import s2_found as found
+found.register(globals(), {"C08", "C02"}, ["exec_timeout_handled"])
